@@ -500,9 +500,7 @@ class Exec:
         if isinstance(l, T.Dim) or isinstance(r, T.Dim):
             if isinstance(op, ast.Mult):
                 return l * r
-        if (_is_z3(l) or _is_z3(r)) and not (hasattr(l, 'is_symtensor') or hasattr(r, 'is_symtensor')) \
-                and not isinstance(l, (tuple, list)) and not isinstance(r, (tuple, list)) \
-                and not hasattr(l, 'is_zarr') and not hasattr(r, 'is_zarr') and not hasattr(l, 'is_zscal') and not hasattr(r, 'is_zscal'):
+        if (_is_z3(l) or _is_z3(r)) and all(_is_z3(x) or isinstance(x, (int, float, Fraction)) for x in (l, r)):
             if isinstance(op, ast.FloorDiv):
                 return l / r      # z3 Int division is floor division for positive divisor
             if isinstance(op, ast.Pow):
@@ -590,7 +588,8 @@ class Exec:
         if isinstance(op, (ast.Is, ast.IsNot)):
             same = l is r
             return same if isinstance(op, ast.Is) else not same
-        if (_is_z3(l) or _is_z3(r)) and type(op) in _PYCMP and not isinstance(op, (ast.In, ast.NotIn)):
+        if (_is_z3(l) or _is_z3(r)) and type(op) in _PYCMP and not isinstance(op, (ast.In, ast.NotIn)) \
+                and all(_is_z3(x) or x is None or isinstance(x, (int, float, Fraction, str, tuple)) for x in (l, r)):
             if plain(l) and not isinstance(l, (int, float, bool)) or plain(r) and not isinstance(r, (int, float, bool)):
                 return isinstance(op, ast.NotEq)
             return _PYCMP[type(op)](l, r)
